@@ -1098,6 +1098,7 @@ def judge(ctx, p, stats):
 
 
 REF_BUDGET_S = 60
+REF_BUDGET_THOROUGH_S = 420     # rounds of 32 programs per core; at load > 50 the full pass (7500 programs) took > 25 min
 
 
 def reference_compare(ctx, progs, budget_s=None):
@@ -1110,7 +1111,7 @@ def reference_compare(ctx, progs, budget_s=None):
     # language is slow on a loaded machine; the programs the Spec leaves open come first)
     vals = []
     t0 = time.time()
-    step = max(32, 4 * yvlib.NPROC) if budget_s else len(progs)
+    step = (max(32, 4 * yvlib.NPROC) if budget_s <= 120 else 32 * yvlib.NPROC) if budget_s else len(progs)
     for k in range(0, len(progs), step):
         if budget_s and k and time.time() - t0 > budget_s:
             break
@@ -1363,7 +1364,7 @@ def run(ctx):
     # quick: every program the list-level Spec leaves open (there the reference interpreter is the only second opinion
     # besides M) + every 4th of the others
     refset = done if not quick else ([p for p in done if p["spec"] == ["SKIP"]] + [p for i, p in enumerate(done) if p["spec"] != ["SKIP"] and i % 4 == 0])
-    refstats = reference_compare(ctx, refset, REF_BUDGET_S if quick else None) if not ctx.violations else {"compared": 0, "skipped": "violations found"}
+    refstats = reference_compare(ctx, refset, REF_BUDGET_S if quick else REF_BUDGET_THOROUGH_S) if not ctx.violations else {"compared": 0, "skipped": "violations found"}
     TIMING["reference_interpreter"] = round(time.time() - t0, 1)
     sample = next((p for p in done if nontrivial(p)), done[0])
     ctx.cov.update({
